@@ -138,9 +138,21 @@ def correspondence(ctx):
                              spec="identical canonical text")
         # one version written twice, in two spellings: the two orders of the text (and of the collection) give equal
         # ranges with the same text, also with simplify (which keeps one of the two: always the same one)
-        twins = [cl for cl in bench.pool.classes if len(cl) >= 2][:8]
-        for cl in twins:
-            (ta, va), (tb, vb) = cl[0], cl[1]
+        # (a pool of its own, which keeps spellings whose hashes differ: hashing is not what this property speaks about)
+        tpool = B.Bench(name, ctx.rng("c13-twins", name), size=14, need_hash=False, respell=0.6).pool
+        twins = []
+        for cl in bench.pool.classes + tpool.classes:
+            if len(cl) >= 2:
+                twins.append((cl, cl[0], cl[1]))
+        caseonly = []
+        for cl in tpool.classes + bench.pool.classes:
+            # two spellings that differ in the case of a letter only (schemes that fold case when they compare print the
+            # text as given: nothing that breaks a tie may fold it too)
+            for i, e1 in enumerate(cl):
+                for e2 in cl[i + 1:]:
+                    if e1[0] != e2[0] and e1[0].lower() == e2[0].lower():
+                        caseonly.append((cl, e1, e2))
+        for cl, (ta, va), (tb, vb) in caseonly[:6] + twins[:12]:
             if any((not t.isascii()) or any(ch in t for ch in "|\\'\" \t\n") or t[0] in "<>=!*vV" for t in (ta, tb)):
                 continue
             other = bench.pool.classes[0][0] if bench.pool.classes[0] is not cl else bench.pool.classes[-1][0]
